@@ -32,10 +32,11 @@ def c20(ctx: Ctx):
         write_ndjson(cases, [ctx.replay["violation"]["c"]])
     else:
         maxmut, stride = (1, 1) if ctx.tier == "quick" else (2, 32)
+        lexstride = 5 if ctx.tier == "quick" else 1
         sparse_ops = ('{"delete", "to_null", "to_empty_obj"}' if ctx.tier == "quick" else
                       '{"to_null", "to_bool", "to_num", "to_str", "to_arr", "to_obj", "to_empty_obj", "to_empty_str", "delete", "dup_key_other_type", "nest_deep", "huge_number", "ref_dangling", "ref_hash_only", "ref_empty"}')
-        cfg = ("SPECIFICATION Spec\nCONSTANTS NNodes = %d\n MaxMut = %d\n PairStride = %d\n Seed = %d\n SparseNodes = 30\n SparseOps = %s\nINVARIANT Emit\nCHECK_DEADLOCK FALSE\n"
-               % (nn, maxmut, stride, ctx.seed, sparse_ops))
+        cfg = ("SPECIFICATION Spec\nCONSTANTS NNodes = %d\n MaxMut = %d\n PairStride = %d\n LexStride = %d\n Seed = %d\n SparseNodes = 30\n SparseOps = %s\nINVARIANT Emit\nCHECK_DEADLOCK FALSE\n"
+               % (nn, maxmut, stride, lexstride, ctx.seed, sparse_ops))
         open(ctx.spec("Gen_C20_run.cfg"), "w").write(cfg)
         # development aid: VERIF_C20_ONLY=graph|mut restricts the run to one half of the universe (a full run sets nothing)
         only = os.environ.get("VERIF_C20_ONLY", "")
@@ -68,7 +69,7 @@ def c20(ctx: Ctx):
         n += ng
         ctx.extra["graph_constants"] = dict(GMaxSteps=gmax, GMaxSchemaSteps=gschema, GTier=gtier, GOfatSteps=gofat, cases=ng)
         ctx.exhaustive = ctx.tier == "quick" and only == ""
-        ctx.extra["generator_constants"] = dict(NNodes=nn, MaxMut=maxmut, PairStride=stride)
+        ctx.extra["generator_constants"] = dict(NNodes=nn, MaxMut=maxmut, PairStride=stride, LexStride=lexstride)
     ctx.build_driver()
     logp = os.path.join(ctx.scratch, "log.ndjson")
     ctx.drive(cases, logp, timeout=5400, shards=14)
